@@ -18,6 +18,8 @@ pub enum Detour {
     Alias(u16, u16),
     /// remove tile k after adding it and add it again
     ReAdd(u16),
+    /// look tile k (and its neighbour) up in the middle of the history - lookups are not edits
+    Lookup(u16),
 }
 
 #[derive(Clone, Debug, Serialize, Deserialize)]
@@ -34,6 +36,7 @@ pub struct Case {
 enum Step {
     Add(u64, Vec<u8>),
     Remove(u64),
+    Lookup(u64),
 }
 
 fn junk_id(l: &Logical, sel: u16) -> u64 {
@@ -76,6 +79,17 @@ fn history_b(c: &Case) -> Vec<Step> {
         }
         steps.push(Step::Add(id, contents[l.pool_index(s)].clone()));
         for d in &c.detours {
+            if let Detour::Lookup(k) = d {
+                if !l.tiles.is_empty() && pick(*k, l.tiles.len()) == i {
+                    // every id added so far that shares this content, then this id
+                    for (oid, os) in l.tiles.iter().take(40) {
+                        if l.pool_index(*os) == l.pool_index(s) {
+                            steps.push(Step::Lookup(*oid));
+                        }
+                    }
+                    steps.push(Step::Lookup(id));
+                }
+            }
             if let Detour::ReAdd(k) = d {
                 if !l.tiles.is_empty() && pick(*k, l.tiles.len()) == i {
                     steps.push(Step::Remove(id));
@@ -84,8 +98,18 @@ fn history_b(c: &Case) -> Vec<Step> {
             }
         }
     }
-    // junk removals are spread: half right away, half at the end
+    // lookups of the junk / alias ids right before they are removed again (a lookup must not change the store)
     let mut out = steps;
+    for t in &tail {
+        if let Step::Remove(id) = t {
+            out.push(Step::Lookup(*id));
+        }
+    }
+    if c.detours.iter().any(|d| matches!(d, Detour::Lookup(_))) {
+        for (id, _) in l.tiles.iter().take(30) {
+            out.push(Step::Lookup(*id));
+        }
+    }
     out.extend(tail);
     out
 }
@@ -110,6 +134,9 @@ fn run_b(c: &Case) -> Result<Vec<u8>, Fail> {
         match st {
             Step::Add(id, content) => a.add(*id, content.clone()).map_err(|e| Fail::new("C16/harness", format!("{e}")))?,
             Step::Remove(id) => a.remove(*id),
+            Step::Lookup(id) => {
+                let _ = guarded("get_tile_by_id", || a.get(*id))?;
+            }
         }
     }
     if reopened {
@@ -206,6 +233,8 @@ fn strategy(g: Gen) -> impl Strategy<Value = Case> {
         (any::<u16>(), any::<u16>()).prop_map(|(a, b)| Detour::WrongFirst(a, b)),
         (any::<u16>(), any::<u16>()).prop_map(|(a, b)| Detour::Alias(a, b)),
         any::<u16>().prop_map(Detour::ReAdd),
+        any::<u16>().prop_map(Detour::Lookup),
+        any::<u16>().prop_map(Detour::Lookup),
     ];
     (logical::logical(g), any::<u32>(), proptest::collection::vec(det, 0..5), proptest::option::weighted(0.5, any::<u16>()), any::<bool>(), any::<bool>())
         .prop_map(|(l, seed2, detours, reopen_at, reopen_async, asyncw)| Case { l, seed2, detours, reopen_at, reopen_async, asyncw })
